@@ -303,6 +303,22 @@ fn dump_malformed_expression() -> Option<String> {
     }
 }
 
+/// C09: Datalog source with a public key of the wrong length
+fn datalog_source_short_key() -> Option<String> {
+    let mut found = vec![];
+    for src in ["check if true trusting ed25519/aabb", "check if true trusting secp256r1/00", "check if f($x) trusting ed25519/"] {
+        match quiet(|| Biscuit::builder().check(src).map(|_| ())) {
+            Err(p) => found.push(format!("BiscuitBuilder::check({:?}) panics: {}", src, p)),
+            Ok(_) => {}
+        }
+    }
+    match quiet(|| AuthorizerBuilder::new().code("allow if true trusting ed25519/aabb").map(|_| ())) {
+        Err(p) => found.push(format!("AuthorizerBuilder::code(\"allow if true trusting ed25519/aabb\") panics: {}", p)),
+        Ok(_) => {}
+    }
+    if found.is_empty() { None } else { Some(found.join("; ")) }
+}
+
 /// run `case` in a child process; report how it ended (a panic inside an extern "C" function aborts the process)
 fn in_child(case: &str) -> Result<String, String> {
     let exe = std::env::current_exe().unwrap();
@@ -432,6 +448,7 @@ fn main() {
         "snapshot_iteration_underflow" => snapshot_iteration_underflow(),
         "snapshot_iteration_overflow" => snapshot_iteration_overflow(),
         "closure_shadowing" => closure_shadowing(),
+        "datalog_source_short_key" => datalog_source_short_key(),
         "dump_malformed_expression" => dump_malformed_expression(),
         "facts_over_budget_at_start" => facts_over_budget_at_start(),
         _ => { eprintln!("unknown case {}", case); std::process::exit(2) }
